@@ -172,7 +172,16 @@ func WorkerMain(t *testing.T, harnesses []*Harness) {
 			break
 		}
 		spec := Spec{Prop: job.Prop, Harness: job.Harness, Tier: job.Tier, Seed: seed, Params: job.Params, Verbose: job.Verbose}
+		// per-run wall-clock watchdog (a real timer outside the bubble): a run that hangs is harness trouble;
+		// the stacks tell where
+		wd := time.AfterFunc(90*time.Second, func() {
+			buf := make([]byte, 1<<21)
+			buf = buf[:runtime.Stack(buf, true)]
+			fmt.Fprintf(os.Stderr, "RUN-WATCHDOG harness=%s seed=%d: run exceeded 90s of wall time\n%s\n", job.Harness, seed, buf)
+			os.Exit(3)
+		})
 		res := Exec(t, h, spec)
+		wd.Stop()
 		runs++
 		line := outLine{Result: res}
 		var unknown *Violation
